@@ -122,7 +122,17 @@ func c06Step(x *engine.Exec) []engine.Failure {
 		want := ratMul(gd, sp)
 		T := world.RatInt(prev.Assets[den].TotalTokens)
 		if absRat(ratSub(sumNext[wk], want)).Cmp(tol(T)) > 0 {
-			out = append(out, fail("conserving", cause("validator-sum"), "slash(v%d,%s): positions on v%d (%s) sum %s -> %s, expected g*sum = %s", v, x.Op.F, w, den, world.RatF(sp), world.RatF(sumNext[wk]), world.RatF(want)))
+			c := "validator-sum"
+			for k := range dest {
+				for _, q := range prev.Pos {
+					if q.Key() == k && q.V == w && q.Denom == den {
+						// a destination of a slashed redelegation lives on this validator: when all its shares are burnt (capped
+						// slash of a sole delegator) its value stays on the validator as shares without owner, not as positions
+						c = "shares-burn-of-redelegation-destination-on-same-validator"
+					}
+				}
+			}
+			out = append(out, fail("conserving", cause(c), "slash(v%d,%s): positions on v%d (%s) sum %s -> %s, expected g*sum = %s", v, x.Op.F, w, den, world.RatF(sp), world.RatF(sumNext[wk]), world.RatF(want)))
 		}
 	}
 	// staked total untouched; custody drops only by what C07 forwards from pending unbondings
